@@ -2,7 +2,7 @@
    Only property theorems here; each is closed by [exact] of a lemma proved in
    Proofs/StatsProofs.v and followed by Print Assumptions. *)
 From Coq Require Import List ZArith QArith.
-From CE Require Import Model.Stats Proofs.StatsProofs.
+From CE Require Import Model.Stats Proofs.StatsProofs Proofs.StatsAucExtra.
 
 (* For every size n and every pair of binary zero-diagonal matrices the code's expressions
    equal TP/(TP+FN) (1 when the truth has no edges) and FP/(FP+TN) (0 when no negatives). *)
@@ -42,3 +42,29 @@ Theorem C17_auc_in_unit : forall ys xs x0 y0,
    0 <= auc (y0 :: ys) (x0 :: xs) /\ auc (y0 :: ys) (x0 :: xs) <= 1)%Q.
 Proof. exact auc_in_unit. Qed.
 Print Assumptions C17_auc_in_unit.
+
+(* "AUC is the trapezoidal area under the supplied curve": a single segment is exactly one
+   trapezoid, and splitting the polyline at any vertex adds the areas of the two pieces, so for
+   every number of points the value is the sum of the individual trapezoids (any abscissae,
+   monotone or not). *)
+Theorem C17_auc_segment_is_trapezoid : forall y0 y1 x0 x1,
+  (auc (y0 :: y1 :: nil) (x0 :: x1 :: nil) == (x1 - x0) * (y0 + y1) / 2)%Q.
+Proof. exact auc_segment. Qed.
+Print Assumptions C17_auc_segment_is_trapezoid.
+
+Theorem C17_auc_additive_over_split : forall ys1 xs1 y x ys2 xs2,
+  length ys1 = length xs1 ->
+  (auc (ys1 ++ y :: ys2) (xs1 ++ x :: xs2)
+   == auc (ys1 ++ y :: nil) (xs1 ++ x :: nil) + auc (y :: ys2) (x :: xs2))%Q.
+Proof. exact auc_split. Qed.
+Print Assumptions C17_auc_additive_over_split.
+
+(* Over non-decreasing abscissae the area is monotone in the ordinates: a curve that is pointwise
+   no lower has no smaller AUC (so a sign slip or a swapped argument in the trapezoid cannot hide
+   behind the [0,1] bound alone). *)
+Theorem C17_auc_monotone_in_ordinates : forall ys zs xs x0 y0 z0,
+  length ys = length xs -> nondecr (x0 :: xs) ->
+  Forall2 Qle (y0 :: ys) (z0 :: zs) ->
+  (auc (y0 :: ys) (x0 :: xs) <= auc (z0 :: zs) (x0 :: xs))%Q.
+Proof. exact auc_mono. Qed.
+Print Assumptions C17_auc_monotone_in_ordinates.
